@@ -8,11 +8,13 @@ package h264reader
 // Contracts for the contract-based verification in /verif (build tag verif); comments only.
 
 // Assumed contract on io.Reader: Read returns a count within the buffer (the io.Reader
-// contract) and touches only the buffer it is given.
+// contract), touches only the buffer it is given, and delivers the next bytes of a fixed byte
+// string ufbyte("stream", i); the ghost counter rdpos is the number of bytes delivered so far (assumed to stay below 2^62).
 //@ func (io.Reader).Read
 //@ trusted
 //@ ghost rdpos += n
-//@ ensures 0 <= n && n <= len(p)
+//@ ensures 0 <= n && n <= len(p) && ghost(rdpos) < 1<<62
+//@ ensures forall k int :: int(old(ghost(rdpos))) <= k && k < int(old(ghost(rdpos))) + n ==> p[k - int(old(ghost(rdpos)))] == ufbyte("stream", k)
 //@ modifies elems(p)
 
 //@ field H264Reader.stream props C34 C37 writers NewReader
@@ -23,21 +25,35 @@ package h264reader
 //@ field H264Reader.countOfConsecutiveZeroBytes props C34 C37 writers (*H264Reader).processByte
 //@ field H264Reader.nalPrefixParsed props C34 C37 writers NewReader, (*H264Reader).NextNAL
 
+// read: the pending buffer always holds exactly the stream bytes delivered but not yet
+// handed out (so it never aliases memory that a later Read overwrites); a call hands out the
+// next len(data) <= numToRead bytes of the stream, in order.
 //@ func (*H264Reader).read
 //@ props C34 C37
-//@ requires reader != nil && reader.stream != nil && numToRead >= 0
+//@ requires reader != nil && reader.stream != nil && numToRead >= 0 && numToRead < 1<<20
+//@ requires (forall k int :: int(ghost(rdpos)) - len(reader.readBuffer) <= k && k < int(ghost(rdpos)) ==> reader.readBuffer[k - (int(ghost(rdpos)) - len(reader.readBuffer))] == ufbyte("stream", k)) && ghost(rdpos) < 1<<62 && uint64(len(reader.readBuffer)) <= ghost(rdpos) && !sameobj(reader.readBuffer, reader.tmpReadBuf) && (reader.nalBuffer == nil || !sameobj(reader.nalBuffer, reader.readBuffer))
 //@ ensures e == nil ==> len(data) <= numToRead
 //@ ensures e != nil ==> data == nil
-//@ loop 0 invariant reader.stream != nil
+//@ ensures e == nil ==> (forall k int :: int(old(ghost(rdpos))) - old(len(reader.readBuffer)) <= k && k < int(old(ghost(rdpos))) - old(len(reader.readBuffer)) + len(data) ==> data[k - (int(old(ghost(rdpos))) - old(len(reader.readBuffer)))] == ufbyte("stream", k))
+//@ ensures e == nil ==> int(ghost(rdpos)) - len(reader.readBuffer) == int(old(ghost(rdpos))) - old(len(reader.readBuffer)) + len(data)
+//@ ensures e == nil ==> (forall k int :: int(ghost(rdpos)) - len(reader.readBuffer) <= k && k < int(ghost(rdpos)) ==> reader.readBuffer[k - (int(ghost(rdpos)) - len(reader.readBuffer))] == ufbyte("stream", k))
+//@ ensures e == nil ==> ghost(rdpos) < 1<<62 && uint64(len(reader.readBuffer)) <= ghost(rdpos) && !sameobj(reader.readBuffer, reader.tmpReadBuf) && (reader.nalBuffer == nil || !sameobj(reader.nalBuffer, reader.readBuffer))
+//@ loop 0 invariant reader.stream != nil && ghost(rdpos) < 1<<62 && uint64(len(reader.readBuffer)) <= ghost(rdpos) && !sameobj(reader.readBuffer, reader.tmpReadBuf) && (reader.nalBuffer == nil || !sameobj(reader.nalBuffer, reader.readBuffer))
+//@ loop 0 invariant (forall k int :: int(ghost(rdpos)) - len(reader.readBuffer) <= k && k < int(ghost(rdpos)) ==> reader.readBuffer[k - (int(ghost(rdpos)) - len(reader.readBuffer))] == ufbyte("stream", k))
+//@ timeout 30
+//@ loop 0 invariant int(ghost(rdpos)) - len(reader.readBuffer) == int(old(ghost(rdpos))) - old(len(reader.readBuffer))
 
 //@ func (*H264Reader).bitStreamStartsWithH264Prefix
 //@ props C34 C37
 //@ requires reader != nil && reader.stream != nil
+//@ requires (forall k int :: int(ghost(rdpos)) - len(reader.readBuffer) <= k && k < int(ghost(rdpos)) ==> reader.readBuffer[k - (int(ghost(rdpos)) - len(reader.readBuffer))] == ufbyte("stream", k)) && ghost(rdpos) < 1<<62 && uint64(len(reader.readBuffer)) <= ghost(rdpos) && !sameobj(reader.readBuffer, reader.tmpReadBuf) && (reader.nalBuffer == nil || !sameobj(reader.nalBuffer, reader.readBuffer))
+//@ ensures e == nil ==> (forall k int :: int(ghost(rdpos)) - len(reader.readBuffer) <= k && k < int(ghost(rdpos)) ==> reader.readBuffer[k - (int(ghost(rdpos)) - len(reader.readBuffer))] == ufbyte("stream", k)) && ghost(rdpos) < 1<<62 && uint64(len(reader.readBuffer)) <= ghost(rdpos) && !sameobj(reader.readBuffer, reader.tmpReadBuf) && (reader.nalBuffer == nil || !sameobj(reader.nalBuffer, reader.readBuffer))
 
 //@ func (*H264Reader).processByte
 //@ props C34 C37
 //@ requires reader != nil
 //@ ensures nalFound ==> len(reader.nalBuffer) >= 1
+//@ ensures sameptr(reader.nalBuffer, old(reader.nalBuffer)) && len(reader.nalBuffer) <= old(len(reader.nalBuffer))
 //@ ensures reader.includeSEI == old(reader.includeSEI) && reader.stream == old(reader.stream)
 //@ modifies reader.nalBuffer, reader.countOfConsecutiveZeroBytes
 
@@ -59,8 +75,10 @@ package h264reader
 //@ func (*H264Reader).NextNAL
 //@ props C34 C37
 //@ requires reader != nil && reader.stream != nil
+//@ requires (forall k int :: int(ghost(rdpos)) - len(reader.readBuffer) <= k && k < int(ghost(rdpos)) ==> reader.readBuffer[k - (int(ghost(rdpos)) - len(reader.readBuffer))] == ufbyte("stream", k)) && ghost(rdpos) < 1<<62 && uint64(len(reader.readBuffer)) <= ghost(rdpos) && !sameobj(reader.readBuffer, reader.tmpReadBuf) && (reader.nalBuffer == nil || !sameobj(reader.nalBuffer, reader.readBuffer))
 //@ observe old(reader.includeSEI)
 //@ ensures err == nil ==> ret0 != nil && len(ret0.Data) >= 1
 //@ ensures err == nil ==> ret0.UnitType == NalUnitType(ret0.Data[0] & 0x1F) && ret0.RefIdc == (ret0.Data[0] & 0x60) >> 5
 //@ ensures err == nil && !old(reader.includeSEI) ==> ret0.UnitType != NalUnitTypeSEI
 //@ loop 0 invariant reader.stream != nil && reader.includeSEI == old(reader.includeSEI)
+//@ loop 0 invariant (forall k int :: int(ghost(rdpos)) - len(reader.readBuffer) <= k && k < int(ghost(rdpos)) ==> reader.readBuffer[k - (int(ghost(rdpos)) - len(reader.readBuffer))] == ufbyte("stream", k)) && ghost(rdpos) < 1<<62 && uint64(len(reader.readBuffer)) <= ghost(rdpos) && !sameobj(reader.readBuffer, reader.tmpReadBuf) && (reader.nalBuffer == nil || !sameobj(reader.nalBuffer, reader.readBuffer))
